@@ -554,6 +554,56 @@ class WFXW(WFNW):
         return "m.wfx", text, exp, {}
 
 
+class MWFNW(Fmt):
+    name = "mwfn"
+    space = [("natom", [2, 1, 3]), ("basis", ["sp", "+d6", "+d5", "+f10", "+f7", "+g9"]), ("mo", ["restricted", "unrestricted", "rohf"]), ("density", [False, True]), ("ecp", [False, True]),
+             ("syms", [False, True]), ("coords", ["small", "negative"]), ("independent", ["all", "one-less"])]
+
+    def make(self, c, seed):
+        from props import common
+        from ref import gto, wfwriters
+
+        n = c["natom"]
+        z = [8, 1, 6][:n]
+        xyz = np.array([[0.0, 0.0, 0.25], [0.0, 1.5, -0.75], [1.25, -0.5, 0.5]])[:n]
+        if c["coords"] == "negative":
+            xyz = xyz - np.array([10.5, 20.25, 30.125])
+        xyz = np.round(xyz / ANG, 8) * ANG  # the format prints angstrom with 8 decimals
+        shells = [(0, 0, [5.5, 0.75], [0.6, 0.5], None), (0, 1, [1.25], [1.0], None), ((n - 1), 0, [0.5], [1.0], None)]
+        shells += {"sp": [], "+d6": [(0, 2, [0.875], [1.0], None)], "+d5": [(0, -2, [0.875], [1.0], None)], "+f10": [((n - 1), 3, [1.125], [1.0], None)], "+f7": [((n - 1), -3, [1.125], [1.0], None)],
+                   "+g9": [(0, -4, [1.5], [1.0], None)]}[c["basis"]]
+        fn = wfwriters.fchk_functions(shells)
+        nb = gto.nbasis(fn)
+        nind = nb if c["independent"] == "all" else nb - 1  # linearly dependent combinations removed: fewer orbitals than basis functions
+        ca = (common.int_matrix(nb, nb, seed).T * 0.125)[:nind]
+        wfntype = {"restricted": 0, "unrestricted": 1, "rohf": 2}[c["mo"]]
+        nal, nbe = (2, 2) if c["mo"] == "restricted" else (2, 1)
+        nal, nbe = min(nal, nind), min(nbe, nind)
+        ea = -1.0 + 0.25 * np.arange(nind)
+        model = dict(title="", z=z, cores=[zi - (2.0 if c["ecp"] and i == 0 else 0.0) for i, zi in enumerate(z)], xyz=xyz, shells=shells, nalpha=nal, nbeta=nbe, ea=ea, ca=ca,
+                     energy=-76.0625, virial=2.00125, wfntype=wfntype, charge=float(sum(z) - (2.0 if c["ecp"] else 0.0) - nal - nbe))
+        if c["mo"] == "unrestricted":
+            model["eb"] = -0.9 + 0.25 * np.arange(nind)
+            model["cb"] = (common.int_matrix(nb, nb, seed + 3).T * 0.125)[:nind]
+            model["occs"] = [1.0] * nal + [0.0] * (nind - nal) + [1.0] * nbe + [0.0] * (nind - nbe)
+        else:
+            model["occs"] = [2.0] * nbe + [1.0] * (nal - nbe) + [0.0] * (nind - nal)
+        if c["syms"]:
+            model["syms"] = [["A1", "B2", "A'", "E1g"][i % 4] for i in range(len(model["occs"]))]
+        if c["density"]:
+            model["density"] = sym2(nb, seed)
+        text = wfwriters.mwfn(model)
+        bv = gto.eval_basis(fn, wfwriters.FCHK_CONV, xyz, gto.PROBE_POINTS[:8] + xyz[0])
+        truth = ca @ bv if c["mo"] != "unrestricted" else np.vstack([ca @ bv, model["cb"] @ bv])
+        exp = [("atnums", z, None), ("atcorenums", model["cores"], 1e-12), ("atcoords", xyz, 1e-9), ("@orbital-values+origin", (truth, xyz[0]), 1e-7), ("energy", -76.0625, 1e-12),
+               ("mo.energies", list(ea) + (list(model["eb"]) if "eb" in model else []), 1e-12), ("mo.occs", model["occs"], 1e-12), ("mo.kind", "unrestricted" if c["mo"] == "unrestricted" else "restricted", None),
+               ("extra.wfntype", wfntype, None), ("extra.full_virial_ratio", 2.00125, 1e-12)]
+        if c["syms"]:
+            exp.append(("extra.mo_sym", model["syms"], None))
+        # (the loader does not claim the optional matrices; the section must merely not disturb it)
+        return "m.mwfn", text, exp, {}
+
+
 class GAMESS(Fmt):
     name = "gamess"
     space = [("natom", [3, 1, 34]), ("steps", [1, 2]), ("sections", ["all", "no-hessian", "no-masses", "hessian-only", "coordinates-only"]), ("approx_hessian", [False, True]), ("coords", ["small", "negative", "touching"]), T(11)]
@@ -581,7 +631,7 @@ class GAMESS(Fmt):
         return "m.dat", text, exp, {}
 
 
-FORMATS = [FCHKW(), WFNW(), WFXW(), GAMESS(), XYZ(), EXTXYZ(), PDB(), MOL2(), SDF(), GRO(), CRD(), VASP(), CHGCAR(), LOCPOT(), CUBE(), GJF(), FCIDUMP(), GLOG()]
+FORMATS = [FCHKW(), WFNW(), WFXW(), MWFNW(), GAMESS(), XYZ(), EXTXYZ(), PDB(), MOL2(), SDF(), GRO(), CRD(), VASP(), CHGCAR(), LOCPOT(), CUBE(), GJF(), FCIDUMP(), GLOG()]
 
 
 def lookup(obj, path):
